@@ -94,6 +94,8 @@ pub fn add_stats(agg: &mut BTreeMap<String, u64>, s: &RunStats) {
     add("reload_foreign_bytes", s.reload_foreign);
     add("reload_with_caller_tags", s.reload_with_tags);
     add("restarts", s.restarts);
+    add("faulty_loads_rejected_mid_history", s.faulty_loads_rejected);
+    add("burst_calls", s.burst_calls);
     add("explicit_discards_requested", s.discards_requested);
     add("add_filter_ok", s.add_filter_ok);
     add("add_filter_err", s.add_filter_err);
@@ -666,12 +668,22 @@ pub fn run_c09_check(tier: &str, seed: u64, workers: u64, runs_override: Option<
     }
     let mut agg = Agg::default();
     let mut harness_error = false;
+    // (every worker's output is drained by its own reader thread: a worker must never block on a full pipe)
+    let mut handles = vec![];
     for mut c in children {
         let so = c.stdout.take().unwrap();
-        for l in BufReader::new(so).lines().map_while(Result::ok) {
-            parse_worker_line(&l, &mut agg);
+        handles.push(std::thread::spawn(move || {
+            let lines: Vec<String> = BufReader::new(so).lines().map_while(Result::ok).collect();
+            let ok = c.wait().map(|s| s.success()).unwrap_or(false);
+            (lines, ok)
+        }));
+    }
+    for h in handles {
+        let (lines, ok) = h.join().expect("join reader");
+        for l in &lines {
+            parse_worker_line(l, &mut agg);
         }
-        if !c.wait().map(|s| s.success()).unwrap_or(false) {
+        if !ok {
             eprintln!("harness error: a C09 worker died");
             harness_error = true;
         }
